@@ -2,11 +2,12 @@
 import Optyx.Drive.Core
 import Optyx.Drive.LP
 import Optyx.Drive.Scipy
+import Optyx.Drive.Analysis
 
 namespace Optyx.Drive
 
 def handlers : List (String → List Sexp → Option String) :=
-  [handleCore, handleLP, handleScipy]
+  [handleCore, LPNs.handleLP, LPNs.handleScipy, handleAnalysis]
 
 def dispatch (line : String) : String :=
   match Sexp.parseLine line with
